@@ -25,7 +25,7 @@ structure St where
   masked : Bool := false    -- textinput: SetInvisibleChar was called
   -- kinds tfc / tic: texts of atoms (code points) whose graphemes can merge
   classes : Array Char := #[]          -- grapheme-break class of each atom (header `k=`)
-  cw : List (List Nat × Nat) := []     -- display width of the clusters seen so far (op field `W=`)
+  cw : List (List Nat × List Nat) := [] -- widths of the characters each cluster seen so far is drawn as (op field `W=`)
   tfc : TextFieldCl.TF Nat := TextFieldCl.new
   tic : TextInputCl.TIC Nat := TextInputCl.new
   edc : Ed (List Nat) := ⟨[], 0⟩
@@ -65,7 +65,7 @@ def showCall : TextField.Call Nat → String
 def showLog (l : List String) : String := if l.isEmpty then "-" else ";".intercalate l
 
 def tfCanon (s : St) (tf : TextField.TF Nat) (cbs : List (TextField.Call Nat)) : String :=
-  s!"v={showIds tf.value} col={(TextField.drawCursorCol s.w tf).toNat} cb={showLog (cbs.map showCall)}"
+  s!"v={showIds tf.value} col={(TextField.drawCursorCol (fun g => [s.w g]) tf).toNat} cb={showLog (cbs.map showCall)}"
 
 /-- What the ideal editor requires of a TextField observation. -/
 def tfExpect (s : St) (ed : Ed Nat) (cbs : List (Callback Nat)) : String :=
@@ -96,7 +96,7 @@ def stepTF (s : St) (op : List String) (impl : String) : St × String :=
     | some w, some h =>
       if w = 0 ∨ h = 0 then (s, s!"nocursor\t{impl}\t{verdictEq "draw" impl "nocursor"}")
       else
-        let col := (TextField.drawCursorCol s.w s.tf).toNat
+        let col := (TextField.drawCursorCol (fun g => [s.w g]) s.tf).toNat
         let want := widthOf s (s.ed.text.take s.ed.cursor)
         (s, s!"col={col}\t{impl}\t{verdictEq "cursor_column" impl s!"col={want}"}")
     | _, _ => (s, "bad-op\tbad-op\tbad-op")
@@ -218,7 +218,7 @@ structure SegSt where
 def segStep (cls : Nat → Char) (st : SegSt) (a : Nat) : SegSt :=
   let c := cls a
   let join : Bool :=
-    st.prev != '-' &&
+    st.prev != '-' && st.prev != 'C' &&   -- GB4: always break after a control character
     ((st.prev == 'L' && (c == 'L' || c == 'V')) ||
      (st.prev == 'V' && (c == 'V' || c == 'T')) ||
      (st.prev == 'T' && c == 'T') ||
@@ -242,7 +242,8 @@ def St.cl (s : St) : List Nat → List (List Nat) := clUax s.cls
 def St.isWordC (s : St) : List Nat → Bool
   | [a] => s.words.getD a false
   | _ => false
-def St.cwidth (s : St) (c : List Nat) : Nat := ((s.cw.find? (·.1 == c)).map (·.2)).getD 1
+def St.cchars (s : St) (c : List Nat) : List Nat := ((s.cw.find? (·.1 == c)).map (·.2)).getD [1]
+def St.cwidth (s : St) (c : List Nat) : Nat := (s.cchars c).foldl (· + ·) 0
 
 def showClusters (l : List (List Nat)) : String :=
   if l.isEmpty then "-" else ",".intercalate (l.map fun c => "+".intercalate (c.map toString))
@@ -280,7 +281,7 @@ def learnWidths (s : St) (wf : Option String) (impl : String) : St :=
   | none => s
   | some w =>
     let v := ((fields impl).find? (·.startsWith "v=")).map fun f => (f.drop 2).toString
-    match v.bind clusters?, commaNats? ((w.drop 2).toString) with
+    match v.bind clusters?, clusters? ((w.drop 2).toString) with
     | some cs, some ws => { s with cw := (cs.zip ws) ++ s.cw.take 64 }
     | _, _ => s
 
@@ -288,7 +289,7 @@ def tfcCanon (s : St) (tf : TextFieldCl.TF Nat) (cbs : List (TextFieldCl.Call Na
   let shc : TextFieldCl.Call Nat → String
     | .change t => "C" ++ showClusters (s.cl t)
     | .submit t => "S" ++ showClusters (s.cl t)
-  s!"v={showClusters (s.cl tf.value)} col={(TextFieldCl.drawCursorCol s.cl s.cwidth tf).toNat} cb={showLog (cbs.map shc)}"
+  s!"v={showClusters (s.cl tf.value)} col={(TextFieldCl.drawCursorCol s.cl s.cchars tf).toNat} cb={showLog (cbs.map shc)}"
 
 def tfcExpect (s : St) (ed : Ed (List Nat)) (cbs : List (Callback (List Nat))) : String :=
   s!"v={showClusters ed.text} col={widthOfC s (ed.text.take ed.cursor)} cb={showLog (cbs.map showCbC)}"
@@ -317,7 +318,7 @@ def stepTFC (s : St) (op : List String) (impl : String) : St × String :=
     | some w, some h =>
       if w = 0 ∨ h = 0 then (s, s!"nocursor\t{impl}\t{verdictEq "draw" impl "nocursor"}")
       else
-        let col := (TextFieldCl.drawCursorCol cl s.cwidth s.tfc).toNat
+        let col := (TextFieldCl.drawCursorCol cl s.cchars s.tfc).toNat
         let want := widthOfC s (s.edc.text.take s.edc.cursor)
         (s, s!"col={col}\t{impl}\t{verdictEq "cursor_column" impl s!"col={want}"}")
     | _, _ => (s, "bad-op\tbad-op\tbad-op")
@@ -407,7 +408,7 @@ def parseHeader (fs : List String) : St :=
   let classes := (get "k=").toList.toArray
   let cls : Nat → Char := fun a => classes.getD a 'O'
   let cs := clUax cls start
-  let sw := (commaNats? (get "W=")).getD []
+  let sw := (clusters? (get "W=")).getD []
   { kind := kind, widths := widths, words := words, classes := classes, cw := cs.zip sw,
     tf := TextField.insertString TextField.new start |> fun t => if start.isEmpty then TextField.new else t,
     ti := if start.isEmpty then TextInput.new else TextInput.setContent TextInput.new start,
